@@ -27,7 +27,7 @@ META = {
 }
 REQUIRED_REACH = ['kinematics/arm_model.py:loadArmFromURDF', 'kinematics/arm_model.py:Arm.FK']
 REQUIRED_CLAUSES = ["loads", "dof_names_limits", "fk", "bundled.fk"]
-REQUIRED_CLASSES = ["limit:zero_bound", "limit:excludes_zero", "limit:integer_or_exponent", "omit:origin", "omit:xyz", "omit:rpy", "omit:axis", "fixed:before", "fixed:between", "fixed:after", "world:yes", "inertial:yes"]
+REQUIRED_CLASSES = ["limit:zero_bound", "limit:excludes_zero", "limit:integer_or_exponent", "omit:origin", "omit:xyz", "omit:rpy", "omit:axis", "fixed:before", "fixed:between", "fixed:after", "world:yes", "inertial:yes", "path:rewritten_between_loads"]
 
 
 def plan(tier, seed):
@@ -190,15 +190,26 @@ def run_shard(spec, ctx):
         ctx.case({"bundled": rel, "shard": ctx.shard}, True)
         check_file(armlib.urdf_path(rel), ctx, bm, case, rng, bundled=True, nvec=10)
     d = tempfile.mkdtemp(prefix="c13_", dir=os.path.join(VERIF, ".cache"))
+    prev_xml = None
     try:
         for i in range(int(spec["n"])):
             xml, classes, nmov, nfix = gen_urdf(rng)
             for c in classes:
                 ctx.cls(c)
-            p = os.path.join(d, "g%d.urdf" % i)
+            # every other file is written over the path of the previous such file: what a load returns must depend on what the
+            # file says now, not on what an earlier load of that path returned (a loader that memoises by path is caught here)
+            reuse = i % 2 == 0
+            p = os.path.join(d, "same.urdf" if reuse else "g%d.urdf" % i)
+            if reuse and i > 0:
+                classes = classes + ["path:rewritten_between_loads"]
+                ctx.cls("path:rewritten_between_loads")
             with open(p, "w") as f:
                 f.write(xml)
             case = {"xml": xml, "classes": classes}
+            if reuse:
+                if i > 0:
+                    case["prev_xml"] = prev_xml
+                prev_xml = xml
             nt = bool(nmov >= 2 and (nfix > 0 or any(c.startswith("omit") for c in classes)))
             ctx.evaluations += 1
             if nt:
@@ -220,6 +231,14 @@ def replay(case, ctx):
     d = tempfile.mkdtemp(prefix="c13_", dir=os.path.join(VERIF, ".cache"))
     try:
         p = os.path.join(d, "r.urdf")
+        if case.get("prev_xml"):
+            # the case was observed on a path that had held (and been loaded as) another robot just before
+            with open(p, "w") as f:
+                f.write(case["prev_xml"])
+            try:
+                bm["loadArmFromURDF"](p)
+            except Exception:
+                pass
         with open(p, "w") as f:
             f.write(case["xml"])
         check_file(p, ctx, bm, case, ctx.rng)
